@@ -97,6 +97,8 @@ def parseOp (op : J) : Except String Op := do
   | [J.str "union", i, k] => pure (.union (← i.toNat) (← k.toNat))
   | [J.str "subset", i, q] => pure (.subset (← i.toNat) (← parseQuery q))
   | [J.str "copy", i] => pure (.copy (← i.toNat))
+  | [J.str "copy", i, J.str "json"] => pure (.copyJson (← i.toNat))
+  | [J.str "copy", i, _] => pure (.copy (← i.toNat))
   | _ => throw "bad op"
 
 /-- op machine over a register of dbs = `stepOp` of `Model/AnnotDbHist.lean`, call by call; returns every db
